@@ -1062,11 +1062,18 @@ theorem validText_iff (b : Bool) (s : List Nat) : validText b s = true ↔ ∀ c
   cases b <;> simp
 
 /-- **C07 (a well-formed `MatchesPredicate` returns its Mismatch)**: for every value `v` of which the
-predicate is false — a tuple included, the message is formatted with `(v,)` — `match()` returns a Mismatch. -/
+predicate is false — a tuple included, the message is formatted with `(v,)` — `match()` returns a Mismatch.
+(`'%s' % (v,)` is `str(v)`: the one value of the universe whose `__str__` raises, an instance of the harness's
+`StrRaisesError`, is excluded — see `C07_predicate_str_raises`.) -/
 theorem C07_predicate_mismatch_built (sel : Bool) (id : Nat) (dom : List V) (res : List Verdict) (v : V)
-    (hno : lookupTbl v dom res = .mismatch) :
+    (hno : lookupTbl v dom res = .mismatch) (hstr : strRaises v = false) :
     matchImpl sel (.leaf (.predicate id .one dom res)) v = .mismatch := by
-  simp [matchImpl, leafImpl, hno, fmtErr]
+  simp [matchImpl, leafImpl, hno, fmtErr, hstr]
+/-- … and for that value the ValueError of its `__str__` propagates out of `match()` -/
+theorem C07_predicate_str_raises (sel : Bool) (id : Nat) (dom : List V) (res : List Verdict) (v : V)
+    (hno : lookupTbl v dom res = .mismatch) (hstr : strRaises v = true) :
+    matchImpl sel (.leaf (.predicate id .one dom res)) v = .raised .valueError := by
+  simp [matchImpl, leafImpl, hno, fmtStr, hstr]
 
 /-- `str()` of an instance of any class of the table succeeds (no row resolves to `Matcher.__str__`) -/
 theorem C07_str_known_total (cls : String) : strKnown cls = none := by
@@ -1101,7 +1108,8 @@ theorem holds_model (i : Input) : holds i (model i) = true := by
           split at hp
           · rename_i id dom res heq
             rw [heq]
-            exact C07_predicate_mismatch_built true id dom res v (by simpa using hp)
+            have hp' : lookupTbl v dom res = Verdict.mismatch ∧ strRaises v = false := by simpa using hp
+            exact C07_predicate_mismatch_built true id dom res v hp'.1 hp'.2
           · simp at hp
         simp [hr, canon]
       · rfl
